@@ -7,7 +7,7 @@ observe(system, created=None, sup=None, moves=None) ->
                 "bases": [index|None] | None, "subs": [index] | None, "mro": [index|str] | None,
                 "implements": [str] | None (implements_directly), "implementedby": [index] | None, "isinterface": bool,
                 "sup": bool (renamed by System.handleDuplicate)} ],
-  "allobjects": [[key, index]]  (dict order), "roots": [index], "root_names": [str],
+  "allobjects": [[key, index]]  (dict order), "roots": [index], "root_names": [str], "unprocessed": [index],
   "moves": [[old_fullname, new_parent_fullname, new_name, target_existed(bool), moved_cls, new_parent_cls]]}
 Objects are indexed: first the `created` list (op stream: creation order), then every other object reachable from
 allobjects values / rootobjects through .parent and .contents, in discovery order."""
@@ -89,6 +89,7 @@ def observe(system, created=None, sup=None, moves=None):
             'allobjects': [[k, see(v)] for k, v in system.allobjects.items()],
             'roots': [see(r) for r in system.rootobjects],
             'root_names': sorted(safe(lambda: list(system.root_names), []) or []),
+            'unprocessed': [see(m) for m in system.unprocessed_modules],
             'moves': list(moves or [])}
 
 
